@@ -923,7 +923,10 @@ func computeBidiOrdering(dir di.Direction, finalLine Line) {
 			basePosition = len(finalLine) - 1 - idx
 		}
 		finalLine[idx].VisualIndex = int32(basePosition)
-		if run.Direction == dir {
+		// only the progression tells a run going against the paragraph : the
+		// orientation flags of vertical directions (set on the runs by [Segmenter.Split])
+		// do not take part in the ordering
+		if run.Direction.Progression() == dir.Progression() {
 			if bidiStart != -1 {
 				swapVisualOrder(finalLine[bidiStart:idx])
 				bidiStart = -1
